@@ -392,6 +392,16 @@ def _truth_key(k, facts):
                 return not facts[other]
             if op == "LtE" and facts.get(("cmp", "Lt", l, r)) is True:
                 return True
+            # x in range(a, b) with constant bounds  =>  a <= x < b
+            for fk, fv in facts.items():
+                if fv is True and fk[0] == "cmp" and fk[1] == "In" and fk[3][0] == "call" and fk[3][1] == ("builtin", "range") \
+                        and fk[2] in (l, r) and all(a[0] == "const" and isinstance(a[1], int) for a in fk[3][2]) and 1 <= len(fk[3][2]) <= 2:
+                    lo, hi = (0, fk[3][2][0][1]) if len(fk[3][2]) == 1 else (fk[3][2][0][1], fk[3][2][1][1])
+                    x = fk[2]
+                    if l[0] == "const" and isinstance(l[1], int) and r == x and (l[1] <= lo if op == "LtE" else l[1] < lo):
+                        return True
+                    if r[0] == "const" and isinstance(r[1], int) and l == x and (hi - 1 <= r[1] if op == "LtE" else hi - 1 < r[1]):
+                        return True
         if op == "In":
             # x in <empty const>
             if r[0] == "const" and isinstance(r[1], (str, tuple, bytes)) and len(r[1]) == 0 and op == "In":
@@ -490,8 +500,9 @@ def _derive(facts, k, v):
                     if op == "Lt" or (b[2] and b[2][0][0] == "const" and b[2][0][1]):
                         setf(b[1][1], True)
                 # i < len(x) with i >= 0 is left to the rules
-        if op == "Is" and r[0] == "global" and v:
-            pass
+        if op in ("Lt", "LtE") and not v:
+            # not (a < b)  ==  b <= a ;  not (a <= b)  ==  b < a : the consequences of the true form apply
+            _derive(facts, ("cmp", "LtE" if op == "Lt" else "Lt", r, l), True)
     else:
         if v:
             setf(("cmp", "Is", k, NONE), False)
@@ -798,7 +809,35 @@ class Analyzer:
         s2.ctx = tuple(ctx)
         return s2
 
+    def _filtered_for(self, st):
+        """`for t in (x for x in xs if c)` (or the list form) is `for x in xs: if c: t = x; body`: the body then runs
+        under the filter's facts about the element."""
+        it = st.iter
+        if not isinstance(it, (ast.GeneratorExp, ast.ListComp)) or len(it.generators) != 1:
+            return None
+        gen = it.generators[0]
+        if gen.is_async or not gen.ifs or not isinstance(gen.target, ast.Name) or not isinstance(it.elt, ast.Name) \
+                or it.elt.id != gen.target.id:
+            return None
+        d = getattr(st, "_desugared", None)
+        if d is None:
+            test = gen.ifs[0] if len(gen.ifs) == 1 else ast.BoolOp(op=ast.And(), values=list(gen.ifs))
+            bind = [] if (isinstance(st.target, ast.Name) and st.target.id == gen.target.id) else \
+                [ast.Assign(targets=[st.target], value=ast.Name(id=gen.target.id, ctx=ast.Load()))]
+            d = ast.For(target=ast.Name(id=gen.target.id, ctx=ast.Store()), iter=gen.iter,
+                        body=[ast.If(test=test, body=bind + list(st.body), orelse=[])], orelse=list(st.orelse))
+            ast.copy_location(d, st)
+            for n in (d.body[0], *bind):
+                ast.copy_location(n, st)
+            ast.fix_missing_locations(d)
+            d._parent = getattr(st, "_parent", None)
+            st._desugared = d
+        return d
+
     def s_For(self, st, s, j):
+        d = self._filtered_for(st)
+        if d is not None:
+            return self.s_For(d, s, j)
         out = []
         for s2, it in self.eval(st.iter, s):
             self._loop_n += 1
@@ -1009,6 +1048,17 @@ class Analyzer:
         if r[0] == "class":
             return ("global", r[1], r[2])
         if r[0] == "value":
+            # a module-level integer constant (`_MAX_PORT = 65535`) is its value: comparisons against it are range facts
+            sts = r[3]
+            if len(sts) == 1 and isinstance(sts[0], (ast.Assign, ast.AnnAssign)):
+                v = sts[0].value
+                if isinstance(v, ast.Constant) and type(v.value) is int:
+                    return ("const", v.value)
+                # ... and `_VALID_PORTS = range(65536)` is that range
+                if isinstance(v, ast.Call) and isinstance(v.func, ast.Name) and v.func.id == "range" and not v.keywords and \
+                        1 <= len(v.args) <= 2 and all(isinstance(a, ast.Constant) and type(a.value) is int for a in v.args) and \
+                        self.model.resolve_global(r[1], "range") is None:
+                    return ("call", ("builtin", "range"), tuple(("const", a.value) for a in v.args), ())
             return ("global", r[1], r[2])
         if r[0] == "ext":
             if r[2] == "TYPE_CHECKING":
@@ -1181,6 +1231,22 @@ class Analyzer:
 
     def e_Call(self, e, s):
         out = []
+        # map(f, xs) is the generator (f(x) for x in xs): analysed as such, so that element-wise rules see the call
+        if isinstance(e.func, ast.Name) and e.func.id == "map" and len(e.args) == 2 and not e.keywords and \
+                not any(isinstance(a, ast.Starred) for a in e.args) and self._k("map") not in s.env and \
+                self.global_term("map") == ("builtin", "map"):
+            g = getattr(e, "_as_genexp", None)
+            if g is None:
+                var = "_map_item"
+                g = ast.GeneratorExp(
+                    elt=ast.Call(func=e.args[0], args=[ast.Name(id=var, ctx=ast.Load())], keywords=[]),
+                    generators=[ast.comprehension(target=ast.Name(id=var, ctx=ast.Store()), iter=e.args[1], ifs=[], is_async=0)])
+                ast.copy_location(g, e)
+                ast.copy_location(g.elt, e)
+                ast.fix_missing_locations(g)
+                g._parent = getattr(e, "_parent", None)
+                e._as_genexp = g
+            return self.eval(g, s)
         # object.__new__(C): a fresh object
         for s1, f in self.eval(e.func, s):
             for s2, args in self.eval_seq(e.args, s1):
@@ -1258,9 +1324,27 @@ class Analyzer:
         if callee.cls and params and params[0] in ("self", "cls"):
             env[params[0]] = f[1] if f[0] == "attr" else ("param", params[0])
             params = params[1:]
-        plain = [x for x in args_t if x[0] != "star"]
-        if any(x[0] == "star" for x in args_t) or any(k is None for k, _v in kwargs):
-            return [(s, ("call", f, args_t, kwargs))]        # star-args: not inlined
+        if any(k is None for k, _v in kwargs):
+            return [(s, ("call", f, args_t, kwargs))]        # **kwargs: not inlined
+        stars = [x for x in args_t if x[0] == "star"]
+        if stars:
+            # f(*t, x): the starred value supplies exactly the positional parameters the other arguments leave open
+            # (anything else is a TypeError at the call); a literal tuple is spread as written
+            if len(stars) > 1 or a.vararg is not None:
+                return [(s, ("call", f, args_t, kwargs))]
+            st_t = stars[0][1]
+            if st_t[0] in ("tuple", "list") and not any(x[0] == "star" for x in st_t[1]):
+                spread = list(st_t[1])
+            else:
+                n = len(params) - (len(args_t) - 1) - len([k for k, _v in kwargs if k in params])
+                if n < 0:
+                    return [(s, ("call", f, args_t, kwargs))]
+                spread = [("item", st_t, i) for i in range(n)]
+            plain = []
+            for x in args_t:
+                plain.extend(spread if x[0] == "star" else [x])
+        else:
+            plain = list(args_t)
         for p, t in zip(params, plain):
             env[p] = t
         if a.vararg is not None:
@@ -1283,9 +1367,14 @@ class Analyzer:
                 finally:
                     self.fi = saved_fi
         arg_names = {}
-        for p, ae in zip(params, [x for x in call_node.args if not isinstance(x, ast.Starred)]):
-            if isinstance(ae, ast.Name):
-                arg_names[p] = ae.id
+        pos = 0
+        for ae in call_node.args:
+            if isinstance(ae, ast.Starred):
+                pos += len(plain) - (len(call_node.args) - 1)
+                continue
+            if isinstance(ae, ast.Name) and pos < len(params):
+                arg_names[params[pos]] = ae.id
+            pos += 1
         for kw in call_node.keywords:
             if kw.arg and isinstance(kw.value, ast.Name):
                 arg_names[kw.arg] = kw.value.id
@@ -1316,6 +1405,7 @@ class Analyzer:
     def _comp(self, e, s, kind, elt):
         inner = s.copy()
         iters = []
+        filters = []        # the `if` tests of the generators (as terms): elements satisfy all of them
         states = [inner]
         for gen in e.generators:
             nxt = []
@@ -1333,6 +1423,8 @@ class Analyzer:
                         for s4 in cur:
                             for s5, t in self.eval(cond, s4):
                                 self.event("cond", cond, s5, test=t, stmt=cond)
+                                if t not in filters:
+                                    filters.append(t)
                                 s6 = assume(s5, t, True)
                                 if s6 is not None:
                                     c2.append(s6)
@@ -1345,7 +1437,7 @@ class Analyzer:
                 if t not in elts:
                     elts.append(t)
         elts.sort(key=show)
-        return [(s, ("comp", kind, tuple(elts), tuple(iters)))]
+        return [(s, ("comp", kind, tuple(elts), tuple(iters), tuple(sorted(filters, key=show))))]
 
     def e_ListComp(self, e, s):
         return self._comp(e, s, "list", e.elt)
